@@ -255,11 +255,22 @@ class _TokenMatchingCallsite:
             fs = funcs if isinstance(funcs, (tuple, list)) else (funcs,)
             if len(fs) == 1 and not isinstance(fs[0], Opaque):
                 # purity link: for this concrete closure MATCH(funcs, list, r0) is the value it returns on the token
-                for s3, v3 in ex.call(fs[0], [tok], {}, s2):
-                    b = ex.truth(v3, s3)
-                    s3.assume(z3.BoolVal(b) if isinstance(b, bool) else b)
-                    if smt.feasible(s3.pc):
-                        out.append((s3, res))
+                try:
+                    marks = len(ex.goals)
+                    probe = s2.fork()
+                    linked = []
+                    for s3, v3 in ex.call(fs[0], [tok], {}, probe):
+                        b = ex.truth(v3, s3)
+                        s3.assume(z3.BoolVal(b) if isinstance(b, bool) else b)
+                        if smt.feasible(s3.pc):
+                            linked.append((s3, res))
+                    out.extend(linked)
+                except OutsideSubset:
+                    # the predicate uses something outside the modelled subset (e.g. regular expressions): keep it
+                    # abstract - only MATCH/NOMATCH of the verified contract are known about the result
+                    del ex.goals[marks:]
+                    if smt.feasible(s2.pc):
+                        out.append((s2, res))
             elif smt.feasible(s2.pc):
                 out.append((s2, res))
         return out
@@ -385,3 +396,26 @@ class get_type_c:
     ]
     raises = []
     serves = ['C18', 'C07']
+
+
+# --------------------------------------------------------------------------------- utils.remove_quotes (C12)
+
+@contract('sqlparse.utils.remove_quotes')
+class remove_quotes_c:
+    """removes exactly one surrounding pair of identical quote characters (", ', `), nothing else; None stays None.
+    Precondition for a str: non-empty (token values are never empty: C01)."""
+    params = {'val': 'str'}
+    requires = ['len(val) >= 1']
+    ensures = ["result == (old(val)[1:len(old(val)) - 1] if ((old(val)[0] == '\"' or old(val)[0] == \"'\" "
+               "or old(val)[0] == '`') and old(val)[0] == old(val)[len(old(val)) - 1]) else old(val))"]
+    raises = []
+    serves = ['C12', 'C07']
+
+
+@contract('sqlparse.utils.remove_quotes', case='None')
+class remove_quotes_none:
+    params = {'val': 'none'}
+    requires = []
+    ensures = ['result is None']
+    raises = []
+    serves = ['C12']
